@@ -50,11 +50,14 @@ struct hm_list_ghost {
   uint64_t v0; bool v0_set;                                 /* value from_chars produced for the first element */
 } HL;
 
+/* record of the most recent find_first_not_of (string identity + result): the following find_last_not_of on the same string is instantiated there */
+struct hm_trim_ghost { const char *l_p; size_t l_n, l_a; } HT;
+
 size_t nondet_size_t(void); _Bool nondet_bool(void); uint64_t nondet_u64(void);
 
 #if defined(IORA_SEARCH) || defined(IORA_NATIVE)
 static inline size_t hm_find_ch0(const iora_sv *s, char c, size_t pos) { for (size_t i = pos; i < s->n; i++) if (s->p[i] == c) return i; return IORA_NPOS; }
-static inline size_t hm_first_not_ows0(const iora_sv *s, size_t pos) { for (size_t i = pos; i < s->n; i++) if (!HM_OWS(s->p[i])) return i; return IORA_NPOS; }
+static inline size_t hm_first_not_ows0(const iora_sv *s, size_t pos) { HT.l_p = s->p; HT.l_n = s->n; HT.l_a = IORA_NPOS; for (size_t i = pos; i < s->n; i++) if (!HM_OWS(s->p[i])) { HT.l_a = i; return i; } return IORA_NPOS; }
 static inline size_t hm_last_not_ows0(const iora_sv *s, size_t pos) { if (s->n == 0) return IORA_NPOS; size_t i = (pos < s->n - 1 ? pos : s->n - 1) + 1; while (i > 0) { if (!HM_OWS(s->p[i - 1])) return i - 1; i--; } return IORA_NPOS; }
 static inline size_t hm_find_crlf0(const iora_sv *s, size_t pos) { for (size_t i = pos; i + 1 < s->n; i++) if (s->p[i] == (char)13 && s->p[i + 1] == (char)10) return i; return IORA_NPOS; }
 #else
@@ -76,6 +79,7 @@ static inline size_t hm_first_not_ows0(const iora_sv *s, size_t pos)
   IORA_ASSUME(HM_CONTENT(r == IORA_NPOS || !HM_OWS(s->p[r])));
   IORA_ASSUME(HM_CONTENT((GQ >= pos && GQ < FEND(r, *s)) ==> HM_OWS(s->p[GQ])));
   IORA_ASSUME(HM_CONTENT(pos < FEND(r, *s) ==> HM_OWS(s->p[pos])));                       /* instantiated at the search start */
+  HT.l_p = s->p; HT.l_n = s->n; HT.l_a = r;
   return r;
 }
 /* s.find_last_not_of(" \t", pos): the last index <= min(pos, n-1) holding a non-OWS byte */
@@ -87,7 +91,11 @@ static inline size_t hm_last_not_ows0(const iora_sv *s, size_t pos)
   IORA_ASSUME(HM_CONTENT(r == IORA_NPOS || !HM_OWS(s->p[r])));
   IORA_ASSUME(HM_CONTENT(HM_LAST_OCC(GQ)));
   IORA_ASSUME(HM_CONTENT(s->n == 0 || HM_LAST_OCC(pos < s->n - 1 ? pos : s->n - 1)));     /* instantiated at the search start */
-  IORA_ASSUME(HM_CONTENT(HM_LAST_OCC(HL.l_a)));                                           /* ... and at the result of the preceding find_first_not_of */
+  IORA_ASSUME(HM_CONTENT(HM_LAST_OCC(HT.l_a)));                                           /* ... and at the result of the preceding find_first_not_of */
+#ifdef HM_NO_CONTENT
+  /* range-only build: the consequence of that instantiation (a non-OWS byte at l_a <= pos of the SAME string => the last non-OWS byte is at or after it) */
+  IORA_ASSUME(!(HT.l_p == s->p && HT.l_n == s->n && HT.l_a < s->n && HT.l_a <= pos) || (r != IORA_NPOS && r >= HT.l_a));
+#endif
   return r;
 }
 /* s.find("\r\n", pos) */
@@ -121,7 +129,7 @@ static inline size_t hm_last_not_ows(const iora_sv *s, size_t pos) { return hm_l
  * strings short enough not to overflow). The value is stated exactly for one- and two-digit strings and unspecified for longer ones.
  * Index form of the call (declared rule pfu-sv): parseFullUInt(s.data() + a, s.data() + b, base, out). */
 #define DG_V(c_) ((uint64_t)(((c_) - 48) & 15))
-static inline bool hm_pfu(const iora_sv *s, size_t a, size_t b, int base, uint64_t *out)
+static inline bool hm_pfu0(const iora_sv *s, size_t a, size_t b, int base, uint64_t *out, uint64_t *gval)
 {
   IORA_ASSERT(a <= b && b <= s->n, "parseFullUInt: [b,e) is a range inside the string");
   IORA_ASSERT(base == 10, "model: decimal only");
@@ -131,27 +139,43 @@ static inline bool hm_pfu(const iora_sv *s, size_t a, size_t b, int base, uint64
   for (size_t i = 0; i < len && ok; i++) { char c = s->p[a + i]; if (!HM_DIG(c)) ok = 0; else { uint64_t d = DG_V(c); if (val > (UINT64_MAX - d) / 10) ok = 0; else val = val * 10 + d; } }
 #else
   bool ok = nondet_bool(); uint64_t val = nondet_u64();
-  char c0 = len > 0 ? s->p[a] : (char)0, c1 = len > 1 ? s->p[a + 1] : (char)0;
+  char c0 = len > 0 ? s->p[a] : (char)0, c1 = len > 1 ? s->p[a + 1] : (char)0, c2 = len > 2 ? s->p[a + 2] : (char)0;
   IORA_ASSUME(!ok || len >= 1);
   IORA_ASSUME(HM_CONTENT(!ok || GD >= len || HM_DIG(s->p[a + (GD < len ? GD : 0)])));
   IORA_ASSUME(HM_CONTENT(ok || len == 0 || len > 19 || (GB < len && !HM_DIG(s->p[a + (GB < len ? GB : 0)]))));
   IORA_ASSUME(HM_CONTENT(!(ok && len == 1) || val == DG_V(c0)));
   IORA_ASSUME(HM_CONTENT(!(ok && len == 2) || val == DG_V(c0) * 10 + DG_V(c1)));
+  IORA_ASSUME(HM_CONTENT(!(ok && len == 3) || val == DG_V(c0) * 100 + DG_V(c1) * 10 + DG_V(c2)));
 #endif
   if (ok) *out = val;                          /* value unmodified on failure */
+  *gval = val;
+  return ok;
+}
+/* parseContentLength: + snapshot of the element that starts at GS, value of the first element */
+static inline bool hm_pfu(const iora_sv *s, size_t a, size_t b, int base, uint64_t *out)
+{
+  uint64_t val; bool ok = hm_pfu0(s, a, b, base, out, &val);
   if (ok && HL.l_pos == GS) { HL.seen = 1; HL.s_a = a; HL.s_b1 = b; HL.s_end = HL.l_end; HL.s_val = val; }
   if (ok && !HL.v0_set) { HL.v0 = val; HL.v0_set = 1; }
+  return ok;
+}
+/* parseHeaderBlock (status code): + record of the converted range and value */
+struct hm_status_ghost { size_t a, b; uint64_t val; bool ok; } HS;
+static inline bool hm_pfu_status(const iora_sv *s, size_t a, size_t b, int base, uint64_t *out)
+{
+  uint64_t val; bool ok = hm_pfu0(s, a, b, base, out, &val);
+  HS.a = a; HS.b = b; HS.val = val; HS.ok = ok;
   return ok;
 }
 
 /* ---- equality with a string literal (operator==(const std::string&, const char*)): length + bytes, literals of <= 8 characters ---- */
 static inline bool hm_sv_eq_lit(iora_sv x, const char *s, size_t len)
 {
-  IORA_ASSERT(len <= 8, "model: comparison literal of at most 8 characters");
+  IORA_ASSERT(len <= 16, "model: comparison literal of at most 16 characters");
   if (x.n != len) return false;
   bool r = true;
 #define HM_B(k) if (len > (k)) r &= (x.p[k] == s[k]);
-  HM_B(0) HM_B(1) HM_B(2) HM_B(3) HM_B(4) HM_B(5) HM_B(6) HM_B(7)
+  HM_B(0) HM_B(1) HM_B(2) HM_B(3) HM_B(4) HM_B(5) HM_B(6) HM_B(7) HM_B(8) HM_B(9) HM_B(10) HM_B(11) HM_B(12) HM_B(13) HM_B(14) HM_B(15)
 #undef HM_B
   return r;
 }
@@ -172,5 +196,97 @@ static inline iora_sv hm_te_last(const iora_sv *v, iora_sv lastToken)
   if (!HL.has_last) { IORA_ASSERT(lastToken.n == 0, "accessor: no token was taken, lastToken is the empty default"); return (iora_sv){ v->p, 0 }; }
   IORA_ASSERT(lastToken.p == v->p + HL.lt_a && lastToken.n == HL.lt_n, "accessor: lastToken is the recorded token of v");
   return (iora_sv){ v->p + HL.lt_a, HL.lt_n };
+}
+
+/* ================= parseHeaderBlock ================= */
+size_t GM;                /* index of SOME mismatch: fixed by the operator!= model when it reports a difference */
+/* Response::headers = std::map<std::string, std::string, CaseInsensitiveCompare>: only the two framing fields are modelled. A key is
+ * recognised by its BYTES (ASCII case-insensitive, written here from RFC 9110 - not through the code's ciEquals); operator[] + assignment
+ * replaces the value stored under the key (last one wins). */
+typedef struct { iora_sv second; } iora_hslot;
+typedef const iora_hslot *iora_hdr_it;
+typedef struct { bool has_cl; iora_hslot cl; bool has_te; iora_hslot te; } iora_hdrs;
+typedef struct { int statusCode; iora_sv statusText; iora_sv httpVersion; iora_hdrs headers; iora_sv body; } Response;
+#define Response_DEFAULT ((Response){ 0, iora_sv_DEFAULT, iora_sv_DEFAULT, { 0, { iora_sv_DEFAULT }, 0, { iora_sv_DEFAULT } }, iora_sv_DEFAULT })
+#define HM_CI(c_, l_) (((c_) == (char)(l_)) | ((c_) == (char)((l_) - 32)))
+#define HM_NAME_IS_CL(k_) ((k_).n == 14 && (HM_CI((k_).p[0], 99) & HM_CI((k_).p[1], 111) & HM_CI((k_).p[2], 110) & HM_CI((k_).p[3], 116) & HM_CI((k_).p[4], 101) & HM_CI((k_).p[5], 110) & HM_CI((k_).p[6], 116) \
+   & ((k_).p[7] == (char)45) & HM_CI((k_).p[8], 108) & HM_CI((k_).p[9], 101) & HM_CI((k_).p[10], 110) & HM_CI((k_).p[11], 103) & HM_CI((k_).p[12], 116) & HM_CI((k_).p[13], 104)))
+#define HM_NAME_IS_TE(k_) ((k_).n == 17 && (HM_CI((k_).p[0], 116) & HM_CI((k_).p[1], 114) & HM_CI((k_).p[2], 97) & HM_CI((k_).p[3], 110) & HM_CI((k_).p[4], 115) & HM_CI((k_).p[5], 102) & HM_CI((k_).p[6], 101) \
+   & HM_CI((k_).p[7], 114) & ((k_).p[8] == (char)45) & HM_CI((k_).p[9], 101) & HM_CI((k_).p[10], 110) & HM_CI((k_).p[11], 99) & HM_CI((k_).p[12], 111) & HM_CI((k_).p[13], 100) & HM_CI((k_).p[14], 105) \
+   & HM_CI((k_).p[15], 110) & HM_CI((k_).p[16], 103)))
+
+struct hm_block_ghost {
+  size_t sub_off, sub_n;                    /* the last hs.substr(pos, n): offset and length of the copy */
+  size_t cur, cur_end;                      /* header-line loop: start and end of the line being processed */
+  bool seen; size_t s_va, s_vn, s_le;       /* snapshot of the line that starts at GS: (trimmed) value range, line end */
+  size_t cl_off;                            /* offset in hs of the value stored in the map under Content-Length */
+} HB;
+
+static inline iora_sv hm_substr(const iora_sv *s, size_t pos, size_t len)
+{
+  IORA_ASSERT(pos <= s->n, "substr: pos <= size() (std::out_of_range otherwise)");
+  iora_sv r; r.p = s->p + pos; r.n = IORA_MIN(len, s->n - pos);
+  return r;
+}
+static inline iora_sv hm_substr_hs(const iora_sv *hs, size_t pos, size_t len) { iora_sv r = hm_substr(hs, pos, len); HB.sub_off = pos; HB.sub_n = r.n; return r; }
+static inline void hm_sv_clear(iora_sv *s) { s->n = 0; }
+/* s.rfind(lit, 0): 0 when s starts with lit, npos otherwise */
+static inline size_t hm_rfind0_lit(const iora_sv *s, const char *lit, size_t len)
+{
+  IORA_ASSERT(len <= 8, "model: prefix literal of at most 8 characters");
+  if (s->n < len) return IORA_NPOS;
+  bool r = true;
+#define HM_B(k) if (len > (k)) r &= (s->p[k] == lit[k]);
+  HM_B(0) HM_B(1) HM_B(2) HM_B(3) HM_B(4) HM_B(5) HM_B(6) HM_B(7)
+#undef HM_B
+  return r ? 0 : IORA_NPOS;
+}
+/* hs.find("\r\n", pos) at the top of the header-line loop */
+static inline size_t hm_line_end(const iora_sv *hs, size_t pos) { size_t r = hm_find_crlf0(hs, pos); HB.cur = pos; HB.cur_end = FEND(r, *hs); return r; }
+/* `value != clValue` (operator!= on std::string). clValue lives across loop iterations: after the loop havoc its pointer is known only through
+ * the invariant, so the accessor ASSERTS that it is the recorded Content-Length value and reads the real bytes of hs. */
+static inline bool hm_sv_ne_cl(const iora_sv *hs, iora_sv x, iora_sv clValue)
+{
+#if !defined(PHB_CL) && !defined(IORA_SEARCH) && !defined(IORA_NATIVE)
+  /* proofs that do not carry the Content-Length invariant: the comparison is any boolean (no byte is read) */
+  (void)hs; (void)x; (void)clValue;
+  return nondet_bool();
+#else
+  IORA_ASSERT(clValue.n == 0 || (clValue.p == hs->p + HB.cl_off && HB.cl_off <= hs->n && clValue.n <= hs->n - HB.cl_off), "accessor: clValue is the value last stored under Content-Length");
+  const char *yp = hs->p + (clValue.n == 0 ? 0 : HB.cl_off); size_t yn = clValue.n;
+#if defined(IORA_SEARCH) || defined(IORA_NATIVE)
+  if (x.n != yn) return true;
+  for (size_t i = 0; i < yn; i++) if (x.p[i] != yp[i]) return true;
+  return false;
+#else
+  bool r = nondet_bool();
+  IORA_ASSUME(r || x.n == yn);
+  IORA_ASSUME(HM_CONTENT(r || GK >= yn || x.p[GK < yn ? GK : 0] == yp[GK < yn ? GK : 0]));
+  IORA_ASSUME(HM_CONTENT(!r || x.n != yn || (GM < yn && x.p[GM < yn ? GM : 0] != yp[GM < yn ? GM : 0])));
+  return r;
+#endif
+#endif
+}
+/* resp.headers[name] = value */
+static inline void hm_hdrs_set(iora_hdrs *m, const iora_sv *hs, iora_sv k, iora_sv v)
+{
+  size_t ta = (HT.l_a == IORA_NPOS) ? 0 : HT.l_a;
+  IORA_ASSERT(HB.sub_off <= hs->n && ta <= hs->n - HB.sub_off, "ghost: offset of the stored value");
+  size_t off = HB.sub_off + ta;                                    /* last hs.substr + what the last trim cut off in front */
+  IORA_ASSERT(v.n == 0 || (v.p == hs->p + off && v.n <= hs->n - off), "ghost: the stored value is the trimmed copy of the last hs.substr");
+  /* which slot: decided from the key BYTES in the proofs that depend on it, any answer otherwise (no byte is read) */
+#if defined(PHB_CL) || defined(IORA_SEARCH) || defined(IORA_NATIVE)
+  bool is_cl = HM_NAME_IS_CL(k);
+#else
+  bool is_cl = nondet_bool();
+#endif
+#if defined(PHB_TE) || defined(IORA_SEARCH) || defined(IORA_NATIVE)
+  bool is_te = !is_cl && HM_NAME_IS_TE(k);
+#else
+  bool is_te = !is_cl && nondet_bool();
+#endif
+  if (is_cl) { m->has_cl = 1; m->cl.second = v; HB.cl_off = off; }
+  else if (is_te) { m->has_te = 1; m->te.second = v; }
+  if (HB.cur == GS) { HB.seen = 1; HB.s_va = off; HB.s_vn = v.n; HB.s_le = HB.cur_end; }
 }
 #endif
